@@ -453,6 +453,8 @@ type ClientSpec struct {
 	Chain  [][]byte      // certificate chain to present (may be empty)
 	Signer crypto.Signer // key used for CertificateVerify (may differ from the certificate's)
 	SNI    string
+	// Sessions: a TLS client session cache (a client that keeps session tickets and offers them again)
+	Sessions tls.ClientSessionCache
 }
 
 // ClientResult is the client's view of one connection
@@ -485,6 +487,7 @@ func (cs ClientSpec) Connect(addr string) *ClientResult {
 		InsecureSkipVerify: true,
 		MinVersion:         tls.VersionTLS13,
 		ServerName:         cs.SNI,
+		ClientSessionCache: cs.Sessions,
 	}
 	if len(cs.Chain) > 0 {
 		cert := &tls.Certificate{Certificate: cs.Chain, PrivateKey: cs.Signer}
